@@ -125,7 +125,10 @@ def hole_layouts():
     recs = [kdriver.known_record(R.T_EVENTS, 0), kdriver.opaque_record(1), kdriver.known_record(R.T_EMG, 1)]
     for n in (4, 6):
         for hole in (0, 1, 2):
-            yield n, recs, hole
+            yield n, recs, hole, 0
+    # ... or unused bytes between the blocks in the data area (table compact or with a hole)
+    yield 4, recs, None, 12
+    yield 5, recs, 1, 7
 
 
 def hole_removal_shard(prop, judge):
@@ -142,8 +145,8 @@ def hole_removal_shard(prop, judge):
     ns = specs.lib()
     tmp = env.scratch_dir("holes")
     path = os.path.join(tmp, "h.tdf")
-    for n, recs, hole in hole_layouts():
-        base = R.build_file(n, recs, hole_at=hole, junk=lambda k: bytes((i * 5 + 0x61) % 255 + 1 for i in range(k)))
+    for n, recs, hole, gap in hole_layouts():
+        base = R.build_file(n, recs, hole_at=hole, gap=gap, junk=lambda k: bytes((i * 5 + 0x61) % 255 + 1 for i in range(k)))
         kinds = [r["type"] for r in recs]
         for k in (1, 2, 3):
             for order in itertools.permutations(kinds, k):
@@ -151,7 +154,7 @@ def hole_removal_shard(prop, judge):
                     f.write(base)
                 env.reset_clock()
                 tdf = ns.tdf.Tdf(path).allow_write()
-                wit = {"holes": True, "n": n, "hole": hole, "order": list(order)}
+                wit = {"holes": True, "n": n, "hole": hole, "gap": gap, "order": list(order)}
                 removed = []
                 try:
                     with tdf as f:
@@ -165,7 +168,7 @@ def hole_removal_shard(prop, judge):
                                     f.remove_block(ns.block.BlockType(t))
                             except Exception as e:  # noqa: BLE001
                                 acc.violation("valid-op-refused", f"{prop}:holes:valid-op-refused:{type(e).__name__}", wit,
-                                              f"{n} slots, hole before live block {hole}, removals {[R.NAMES.get(x, x) for x in removed]} then "
+                                              f"{n} slots, hole before live block {hole}, {gap} unused bytes before each block, removals {[R.NAMES.get(x, x) for x in removed]} then "
                                               f"remove({R.NAMES.get(t, t)}): {type(e).__name__}: {e}")
                                 break
                             removed.append(t)
@@ -180,7 +183,7 @@ def hole_removal_shard(prop, judge):
                             if bad:
                                 clause, detail = bad[0]
                                 acc.violation(clause, f"{prop}:holes:{clause}", wit,
-                                              f"{n} slots, hole before live block {hole}, after removing {[R.NAMES.get(x, x) for x in removed]}: {detail}")
+                                              f"{n} slots, hole before live block {hole}, {gap} unused bytes before each block, after removing {[R.NAMES.get(x, x) for x in removed]}: {detail}")
                                 break
                             acc.outcomes["holes:removal:ok"] += 1
                             acc.n["traces"] += 1
@@ -190,8 +193,8 @@ def hole_removal_shard(prop, judge):
                     acc.violation("context-exit-raises", f"{prop}:holes:context-raises:{type(e).__name__}", wit, f"{type(e).__name__}: {e}")
     # requests the library refuses on such files (add / replace / setter: C07 judges the refusal).  Whether it
     # refuses is not this check's business; *if* it accepts, the result is judged like any other successful call.
-    for n, recs, hole in hole_layouts():
-        base = R.build_file(n, recs, hole_at=hole, junk=lambda k: bytes((i * 5 + 0x61) % 255 + 1 for i in range(k)))
+    for n, recs, hole, gap in hole_layouts():
+        base = R.build_file(n, recs, hole_at=hole, gap=gap, junk=lambda k: bytes((i * 5 + 0x61) % 255 + 1 for i in range(k)))
         kinds = [r["type"] for r in recs]
         for first_removed in [None] + kinds:
             attempts = [("add", R.T_DATA3D), ("add", R.T_OPT), ("replace", R.T_EVENTS), ("replace", R.T_EMG), ("set", R.T_EMG), ("set", R.T_FORCE3D)]
@@ -201,7 +204,7 @@ def hole_removal_shard(prop, judge):
                 with open(path, "wb") as f:
                     f.write(base)
                 env.reset_clock()
-                wit = {"holes": True, "n": n, "hole": hole, "order": [first_removed] if first_removed else [], "attempt": [what, t]}
+                wit = {"holes": True, "n": n, "hole": hole, "gap": gap, "order": [first_removed] if first_removed else [], "attempt": [what, t]}
                 acc.n["states"] += 1
                 acc.n["evaluations"] += 1
                 acc.n["transitions"] += 1
